@@ -340,10 +340,11 @@ impl CompressorClient {
             .map_err(MonorailError::from)
     }
     pub(crate) async fn shutdown(&self) -> Result<(), MonorailError> {
-        self.req_tx
-            .send(CompressRequest::Shutdown)
-            .await
-            .map_err(MonorailError::from)
+        // Every client registered on a compressor thread sends its own shutdown request,
+        // but the thread exits on the first one it receives. A closed channel therefore
+        // means the thread has already shut down, which is not an error.
+        let _ = self.req_tx.send(CompressRequest::Shutdown).await;
+        Ok(())
     }
 }
 
